@@ -133,9 +133,15 @@ def enc15 (ty n : Nat) : Nat := Identity.encode { ty := ty, val := n }
 /-- The body of the lib15 tasks: `TA(n)` (ty 0), `TB(n)` (ty 1), `Box/Rc/Arc<TA>` (2,3,4; they run
 `TA`'s body inside their own node). -/
 def body15 (e : Nat) : Prog :=
-  let ty := e % 8
-  let n := e / 8
+  let ty := e % 16
+  let n := e / 16
   let base : Int := if ty == 1 then 1 else 0
+  -- zero-sized task types `UA` (ty 7) and `UB` (ty 8): read `RA(0)`, return `ty*1000 + a`
+  if ty == 7 || ty == 8 then
+    .read (enc15 5 0) 0 fun ra =>
+      let a : Int := match ra with | .ok (some v) => v | _ => 0
+      .ret ((ty : Int) * 1000 + a)
+  else
   .read (enc15 5 n) 0 fun ra =>
   .read (enc15 6 n) 0 fun rb =>
     let a : Int := match ra with | .ok (some v) => v | _ => 0
@@ -163,11 +169,12 @@ def runLib15 (lines : List String) : List String :=
       else match l.splitOn " " with
         | ["req", ty, n] => do
           let ty ← ty.toNat?; let n ← n.toNat?
-          if ty > 4 then none else
+          if ty > 4 && !(ty == 7 || ty == 8) then none else
+          if (ty == 7 || ty == 8) && n != 0 then none else
           let n0 := s.trace.length
           let (s', r) := sessionRequire sem15 body15 FUEL s (enc15 ty n)
           let execs := (s'.trace.drop n0).filterMap fun e => match e with
-            | .executeStart t => some s!"exec {if t % 8 == 1 then 1 else 0} {t / 8}" | _ => none
+            | .executeStart t => some s!"exec {if t % 16 == 1 then 1 else if t % 16 == 7 then 7 else if t % 16 == 8 then 8 else 0} {t / 16}" | _ => none
           let st := { st with out := st.out ++ execs.toArray }
           match r with
           | .ok o => sess { st with out := st.out.push s!"{l} -> out {o}" } s' ls
@@ -190,9 +197,11 @@ def runLib15 (lines : List String) : List String :=
       | ["eq", t1, n1, t2, n2] =>
         match t1.toNat?, n1.toNat?, t2.toNat?, n2.toNat? with
         | some t1, some n1, some t2, some n2 =>
-          if t1 > 6 || t2 > 6 then (st.out.push s!"bad-op {l}").toList else
+          if t1 > 8 || t2 > 8 then (st.out.push s!"bad-op {l}").toList else
+          if ((t1 == 7 || t1 == 8) && n1 != 0) || ((t2 == 7 || t2 == 8) && n2 != 0) then (st.out.push s!"bad-op {l}").toList else
           let e := Identity.eqAny { ty := t1, val := n1 } { ty := t2, val := n2 }
-          let de := n1 == n2 && ((t1 ≤ 4) == (t2 ≤ 4))
+          let cls := fun (t : Nat) => if t ≤ 4 then 0 else if t ≤ 6 then 1 else 2
+          let de := cls t1 == cls t2 && (cls t1 == 2 || n1 == n2)
           go fuel { st with out := st.out.push s!"{l} -> {e} debug_equal={de}" } ls
         | _, _, _, _ => (st.out.push s!"bad-op {l}").toList
       | ["session"] =>
